@@ -60,18 +60,18 @@ func Fail(key, format string, args ...any) *Finding {
 
 // Spec describes one sub-check of a property.
 type Spec[C any] struct {
-	Name     string            // unique within the property, recorded in replay files
-	Gen      func(*rapid.T) C  // generator (nil for enumeration-only checks)
-	Run      func(C) Result    // executes one case
-	Quick    int               // rapid checks in the quick tier
-	Thorough int               // rapid checks per shard in the thorough tier
-	Journal  bool              // write the case to the journal before running it (engines with background goroutines)
-	Enum     func(func(C) bool) // optional exhaustive enumeration, run before the random part; yield returns false to stop
-	EnumOnlyShard0 bool        // enumeration is only done by shard 0 in sharded runs
-	EnumSharded bool           // the enumeration is divided among the shards (case i goes to shard i mod n); together they are exhaustive
-	Rule     string            // non-triviality rule in words
-	NoRecover bool             // do not recover panics in Run (engine handles them itself)
-	ShrinkSeconds int          // time limit for rapid's shrinking (default 20 s; lower for engines with slow cases)
+	Name           string             // unique within the property, recorded in replay files
+	Gen            func(*rapid.T) C   // generator (nil for enumeration-only checks)
+	Run            func(C) Result     // executes one case
+	Quick          int                // rapid checks in the quick tier
+	Thorough       int                // rapid checks per shard in the thorough tier
+	Journal        bool               // write the case to the journal before running it (engines with background goroutines)
+	Enum           func(func(C) bool) // optional exhaustive enumeration, run before the random part; yield returns false to stop
+	EnumOnlyShard0 bool               // enumeration is only done by shard 0 in sharded runs
+	EnumSharded    bool               // the enumeration is divided among the shards (case i goes to shard i mod n); together they are exhaustive
+	Rule           string             // non-triviality rule in words
+	NoRecover      bool               // do not recover panics in Run (engine handles them itself)
+	ShrinkSeconds  int                // time limit for rapid's shrinking (default 20 s; lower for engines with slow cases)
 }
 
 // ---------------------------------------------------------------------------
@@ -83,8 +83,8 @@ var (
 	Seed       = envInt("VERIF_SEED", 1)
 	Shard      = envInt("VERIF_SHARD", 0)
 	NShards    = envInt("VERIF_NSHARDS", 1)
-	OutFile    = os.Getenv("VERIF_OUT")     // stats JSON written at the end of each sub-check
-	ReplayFile = os.Getenv("VERIF_REPLAY")  // replay exactly this file and nothing else
+	OutFile    = os.Getenv("VERIF_OUT")    // stats JSON written at the end of each sub-check
+	ReplayFile = os.Getenv("VERIF_REPLAY") // replay exactly this file and nothing else
 	VerifRoot  = envOr("VERIF_ROOT", "/verif")
 	ScaleEnv   = envInt("VERIF_SCALE", 100) // percentage applied to case counts (used by the self-test to run faster)
 )
